@@ -36,15 +36,16 @@ type context struct {
 }
 
 type Type struct {
-	main *context        // main context
-	CR   compresult.Type // cr is the compilation result
+	main  *context        // main context
+	CR    compresult.Type // cr is the compilation result
+	stdin *bufio.Reader   // standard input; one reader so that buffered input survives between reads
 }
 
 // New creates a new virtual machine using memory from m and code and data from cr.
 func New(m *memory.Type, cr compresult.Type) *Type {
 	contexts := intmap.New[uint64, *context](minAllocContexts)
 	main := context{m: m, children: contexts}
-	return &Type{main: &main, CR: cr}
+	return &Type{main: &main, CR: cr, stdin: bufio.NewReader(os.Stdin)}
 }
 
 // Run executes the run loop.
@@ -487,8 +488,7 @@ func (vm *Type) Run(retResult bool) (value.Type, error) {
 			}
 
 		case bytecode.READ:
-			b := bufio.NewReader(os.Stdin)
-			line, err := b.ReadString('\n')
+			line, err := vm.stdin.ReadString('\n')
 			if err != nil {
 				return vm.dumpStack(ctxp, ip, fmt.Errorf("read error %w", err))
 			}
